@@ -1,4 +1,75 @@
-import AffVerif.Model.Reduce
-/-! # C06 (theorems added below as they are proved) -/
+import AffVerif.Proofs.ElimEffective
+import AffVerif.Props.C05
+/-!
+# C06 — infeasible-path elimination is effective and idempotent
+
+* `C06_settled_fixpoint` — on a tree without undecided nodes the sweep changes nothing and asks the oracles nothing
+  (any oracles, any branching factor, partial trees included).
+* `C06_sweep_settles` — with oracles that always reach a verdict (`Decisive`: the solver does not fail and a solver
+  point that fails `contains` can be repaired) the swept tree has no undecided node.
+* `C06_idempotent` — hence a second run returns the same tree and solves no LP (the oracle state is returned
+  untouched), whatever oracles the second run is given.
+* `C06_no_single_branch` — on a total tree whose sibling pairs are both fresh or both cached feasible (every
+  compose / eliminate / compose / eliminate pipeline) no decision below the root is left with a single branch —
+  except above a branch that is itself marked infeasible, i.e. when the solver declared both closed half-regions of a
+  feasible node empty. That exception cannot occur with an exact solver (the half-spaces cover the region); on the
+  implementation it is what "empty by more than the solver's tolerance" allows, and the judge decides it per case
+  with exact certificates.
+* `C06_swept_caches` — the swept tree also carries sound caches: every node still marked by a witness has a point
+  within `tol` of all its path conditions (so its region is not empty by more than `tol`), every node marked
+  infeasible has an empty region and no sibling.
+-/
+set_option linter.unusedSectionVars false
+set_option linter.unusedVariables false
 namespace AV
+variable {α : Type} [Field α] [LinearOrder α] [IsStrictOrderedRing α]
+
+theorem C06_settled_fixpoint {σ : Type} (tol : α) (O : Oracles σ α) (n : Nat) (t : PT α) (s : σ)
+    (h : PT.SettledBelow t) : infeasibleElimination tol O n t s = (t, s) := by
+  unfold infeasibleElimination
+  rw [elimNode_settled tol O n true [] t.val.state t s h]
+  cases t with
+  | node i c ks => rfl
+
+theorem C06_sweep_settles {σ : Type} (tol : α) (O : Oracles σ α) (hd : Decisive tol O) (n : Nat) (t : PT α) (s : σ) :
+    PT.SettledBelow (infeasibleElimination tol O n t s).1 :=
+  settled_elimNode tol O hd n true [] t.val.state t s
+
+/-- running the elimination again changes nothing and solves no LP -/
+theorem C06_idempotent {σ σ' : Type} (tol : α) (O : Oracles σ α) (hd : Decisive tol O) (O' : Oracles σ' α) (n : Nat)
+    (t : PT α) (s : σ) (s' : σ') :
+    infeasibleElimination tol O' n (infeasibleElimination tol O n t s).1 s' =
+      ((infeasibleElimination tol O n t s).1, s') :=
+  C06_settled_fixpoint tol O' n _ s' (C06_sweep_settles tol O hd n t s)
+
+theorem C06_no_single_branch {σ : Type} (tol : α) (O : Oracles σ α) (hd : Decisive tol O) (n : Nat) (t : PT α) (s : σ)
+    (hu : PT.TotalUniform t) : PKids.NoSingle (infeasibleElimination tol O n t s).1.kids :=
+  (noSingle_elimNode tol O hd n true [] t.val.state t s hu).1
+
+/-- below the root the same holds one level up: a swept sub-tree is replaced by its only branch -/
+theorem C06_no_single_branch_below {σ : Type} (tol : α) (O : Oracles σ α) (hd : Decisive tol O) (n : Nat)
+    (path : List (Aff α)) (st : NState α) (t : PT α) (s : σ) (hu : PT.TotalUniform t) :
+    PKids.OneInf (elimNode tol O n false path st t s).1.kids :=
+  (noSingle_elimNode tol O hd n false path st t s hu).2 rfl
+
+theorem C06_swept_caches {σ : Type} (tol : α) (O : Oracles σ α) (hd : Decisive tol O) (hlp : InfeasibleSound O.lp)
+    (hm : MirrorSound tol O.mirror) (n m : Nat) (t : PT α) (s : σ) (h : CacheOK tol n m t) :
+    PT.SettledBelow (infeasibleElimination tol O n t s).1 ∧ CacheOK tol n m (infeasibleElimination tol O n t s).1 :=
+  ⟨C06_sweep_settles tol O hd n t s, C05_elim tol O hlp hm n m t s h⟩
+
+/-- non-vacuity of `Decisive`: a backend that always answers (here: "unbounded") with a heuristic that never helps -/
+example {σ : Type} (tol : α) : Decisive tol (⟨fun s _ _ => (.unbounded, s), fun s _ _ _ _ => (none, s)⟩ : Oracles σ α) := by
+  intro s node pst path hyper n
+  unfold decideNode phaseInh phaseOne phaseTwo
+  cases pst <;> simp
+  split <;> simp
+  rename_i h
+  by_contra hc
+  apply h
+  rw [if_pos]
+  intro a ha
+  cases hb : Poly.containsTol tol hyper a with
+  | false => rfl
+  | true => exact absurd ⟨a, ha, hb⟩ hc
+
 end AV
